@@ -96,7 +96,7 @@ class StoreModel:
         gen = self.gens.get(ident, 0)
         self.gens[ident] = gen + 1
         fault = self.faults[ti.key].pop(0) if self.faults.get(ti.key) else None
-        if fault == 'raise':
+        if fault in ('raise', 'interrupt'):
             self.last_failed.add(o)
             raise _ModelFault(f'{fn}:{fault}')
         try:
@@ -270,7 +270,7 @@ class Exec:
                 else:
                     p = self.world.decode(v, kindd)
                     obs.update(term=p['term'], gen=p['gen'], error=None)
-            except worlds.Fault as e:
+            except (worlds.Fault, worlds.Interrupt) as e:
                 obs.update(term=None, gen=None, error=f'Fault: {e}', fault=True)
             except Exception as e:  # noqa
                 import traceback
